@@ -18,7 +18,7 @@ def perturb(rng, v, start, count, stride, numrecs, isput, strict):
     lim = numrecs if isrecdim else v.shape[d]
     s, c, t = list(start), list(count), list(stride)
     # make every dimension before d valid and non-empty so that d decides
-    kind = rng.choice(['neg_start', 'big_start', 'eq_start', 'neg_count', 'edge', 'stride0', 'stride_neg', 'stride_edge', 'stride_edge_exact', 'stride_edge_exact', 'stride_last_valid'])
+    kind = rng.choice(['neg_start', 'big_start', 'eq_start', 'neg_count', 'edge', 'stride0', 'stride_neg', 'stride_edge', 'stride_edge_exact', 'stride_edge_exact', 'stride_last_valid', 'stride_huge'])
     form = 'vars'
     if kind == 'neg_start':
         s[d] = -1 - rng.below(3); exp = EINVALCOORDS
@@ -68,6 +68,19 @@ def perturb(rng, v, start, count, stride, numrecs, isput, strict):
             if s[d] < 0:
                 return None
         exp = EEDGE if kind == 'stride_edge_exact' else 0
+    elif kind == 'stride_huge':
+        # strides for which (count-1)*stride does not fit 64 bits (or lands on a small value after wrapping):
+        # the edge test must still reject them
+        if (isrecdim and isput) or lim < 2:
+            return None
+        c[d] = rng.range(2, min(lim, 5))
+        s[d] = rng.below(lim - c[d] + 1)
+        k = c[d] - 1
+        t[d] = rng.choice([2**62, 2**62 + 1, 2**63 - 1, 2**64 // k + 1, (2**64 + lim - 1 - s[d]) // k, 2**63 // k + 1,
+                           2**61 + 1, 2**32, 2**31])
+        if t[d] > 2**63 - 1:
+            t[d] = 2**63 - 1
+        exp = EEDGE
     else:  # stride_edge
         if (isrecdim and isput) or lim < 2:
             return None
